@@ -171,6 +171,16 @@ CHECKS = {
    note=("Trusted: TLC, the function table (a function missing from the table is not covered), harness safe.rs/safety.rs. Memory safety is "
          "observed on the replayed behaviours, not proved. Integer panics are decided by C13, mask test/set by C15."),
    ref="5 (C18)"),
+ "C19": dict(
+   technique="TLA+ serial form (token stream, acceptance by length, padding-freedom, row/column listings) for all 52 value types, TLC enumeration of every length 0..N+2, replay through an exact recording Serializer/Deserializer, bytemuck/rkyv/mint and cross-build JSON comparison",
+   text=("MC_C19 defines for every public value type its serde token stream TupleStruct(name, N), e1..eN, End, acceptance of an element "
+         "sequence iff its length is N, padding-freedom (storage = N x scalar size) and the row-major listing of matrices; TLC enumerates "
+         "every type x every sequence length 0..N+2. The harness drives the real impls with an in-memory token-stream Serializer and "
+         "Deserializer (exact names, hints, element types and bits; hint-honouring and hint-ignoring carriers), serde_json round trips whose "
+         "texts are compared between the SIMD, scalar-math and core-simd builds, bytemuck byte images/zeroed/a compile-time Pod probe "
+         "(Pod only without padding), rkyv archive round trips and mint column/row matrix layouts."),
+   note="Trusted: TLC, harness ser.rs (recording serde carrier). Element palette instead of all bit patterns; rkyv only for implementing types.",
+   ref="5 (C19)"),
 }
 
 PENDING = {}
@@ -205,7 +215,7 @@ def main():
                      "kind_free_text": "explicit TLA+ specification (spec/*.tla) checked with TLC; TLC-generated behaviours replayed into the real code by harness/ (Rust) in several build configurations, and recorded executions validated against the specification by TLC"}],
         "checks": checks,
         "not_applicable": na,
-        "notes": "Two genuine defects were repaired with fix: commits (see known_findings.json, DESIGN.md section 7).",
+        "notes": "Genuine defects found by the checks were repaired with fix: commits in /repo (see known_findings.json, DESIGN.md section 7).",
     }
     json.dump(m, open(os.path.join(core.VERIF, "MANIFEST.json"), "w"), indent=1)
     print(f"MANIFEST.json: {len(checks)} checks, {len(na)} not_applicable")
